@@ -1583,7 +1583,14 @@ void OPNMIDIplay::markSostenutoNotes(int32_t midCh)
             OpnChannel::LocationData &jd = j->value;
             ++jnext;
             if((jd.loc.MidCh == midCh) && (jd.sustained == OpnChannel::LocationData::Sustain_None))
+            {
+                // Sostenuto holds keys that are down: a too-short percussion note that only waits
+                // out its minimum life time has its key released already
+                MIDIchannel::notes_iterator k = m_midiChannels[jd.loc.MidCh].find_activenote(jd.loc.note);
+                if(!k.is_end() && k->value.isOnExtendedLifeTime)
+                    continue;
                 jd.sustained |= OpnChannel::LocationData::Sustain_Sostenuto;
+            }
         }
     }
 }
